@@ -76,4 +76,99 @@ def eventTextLog (base : List (Str × GVal)) (msg : Str) : List (Str × GVal) :=
 def writeEventText (base : List (Str × GVal)) (msg : Str) : Str :=
   orjsonDumps (eventTextLog base msg)
 
+/-! ## `logger.<level>(message)` as `get_logger()` installs it: `add_level.py`, `log_for_level`
+
+What the caller hands over (a dict, text or bytes) becomes the text passed to `Logger._log`, which the
+handler formats (`LogFormatter.format`).  l.59-72: a dict is serialised with `orjson.dumps` (bytes), when
+orjson refuses it with `json.dumps(..., default=str)`, and only when that fails too with `str()`;
+bytes are decoded.  l.73-83: a record below the logger's level is dropped, a WARNING whose text was
+seen before is dropped (counted), anything else goes to `_log` *as it is* - nothing is cut, capped or
+decorated on the way. -/
+
+/-- The argument of a level method, at its successive stages. -/
+inductive Msg where
+  | dict (d : List (Str × Json))
+  | bytes (b : Str)   -- the text the bytes decode to
+  | text (t : Str)
+  deriving Repr
+
+def Msg.isDict : Msg → Bool
+  | .dict _ => true
+  | _ => false
+
+def Msg.isBytes : Msg → Bool
+  | .bytes _ => true
+  | _ => false
+
+/-- `bytes.decode()` -/
+def Msg.decode : Msg → Msg
+  | .bytes b => .text b
+  | m => m
+
+def Msg.isText : Msg → Bool
+  | .text _ => true
+  | _ => false
+
+/-- The vocabulary a cap / cut / decoration of the message text would be written in (`len(message)`,
+`message[:n]`, `message[n:]`, concatenation): not used by the code as it is - the translator knows it so that
+such a change is *translated* (and `C20.generated_log_for_level_eq_model` fails) instead of degrading. -/
+def Msg.len : Msg → Nat
+  | .text t => t.length
+  | .bytes b => b.length
+  | .dict d => d.length
+
+def Msg.take (n : Nat) : Msg → Msg
+  | .text t => .text (t.take n)
+  | .bytes b => .bytes (b.take n)
+  | m => m
+
+def Msg.drop (n : Nat) : Msg → Msg
+  | .text t => .text (t.drop n)
+  | .bytes b => .bytes (b.drop n)
+  | m => m
+
+def Msg.cat (ms : List Msg) : Msg :=
+  .text (ms.flatMap fun m => match m with
+    | .text t => t
+    | .bytes b => b
+    | .dict _ => [])
+
+/-- l.59-72: the message text.  `oj` = `orjson.dumps` (none: it raises), `js` = `json.dumps(·, default=str)`
+(none: it raises), `str` = Python's `str()` of the dict. -/
+def handOver (oj js : List (Str × Json) → Option Str) (str : List (Str × Json) → Str) : Msg → Msg
+  | .dict d =>
+    match oj d with
+    | some b => .text b
+    | none => match js d with
+      | some t => .text t
+      | none => .text (str d)
+  | .bytes b => .text b
+  | .text t => .text t
+
+/-- l.73-83: what reaches `Logger._log` (none: the record is dropped). -/
+def logForLevel (oj js : List (Str × Json) → Option Str) (str : List (Str × Json) → Str)
+    (enabled isWarning : Bool) (seen : Msg → Bool) (m : Msg) : Option Msg :=
+  let msg := handOver oj js str m
+  if enabled then (if isWarning && seen msg then none else some msg) else none
+
+/-- The three partial / total serialisers as `log_for_level` applies them to its `message` variable. -/
+def ojMsg (oj : List (Str × Json) → Option Str) : Msg → Option Msg
+  | .dict d => (oj d).map Msg.bytes   -- orjson.dumps returns bytes
+  | _ => none
+
+def jsMsg (js : List (Str × Json) → Option Str) : Msg → Option Msg
+  | .dict d => (js d).map Msg.text
+  | _ => none
+
+def strMsg (str : List (Str × Json) → Str) : Msg → Msg
+  | .dict d => .text (str d)
+  | m => m
+
+/-- The record the handler writes for what reached `_log`: the layout puts the message last, behind
+the header fields (`header ++ "|" ++ message`), `LogFormatter.format` does the rest. -/
+def emitted (h : Json → Str) (can : Bool) (parse : Str → Option (List (Str × Json))) (header : Str) :
+    Option Msg → Option Str
+  | some (.text t) => some (format h can parse (header ++ '|' :: t))
+  | _ => none
+
 end Sanitise
